@@ -39,6 +39,7 @@ func main() {
 		Rule: "histories of 60 (10%: 300, 1%: 1500) operations are generated per (max bytes, line limit) configuration (fixed list incl. max < one line, max == exactly k lines, odd max, line limit 1, max < line limit, the client's test and production constants; plus random ones): " +
 			"Printf 70% (pool lines of lengths 0..2x limit with shared prefixes so that truncations collide; fresh lines; lines sized to fit the free space exactly, with and without eviction of k oldest lines; strings with format verbs as format and as argument), " +
 			"ExpireLogs 18% (cut before all / after all / between / exactly on / 1 ns around stored timestamps, oldest-line-only, partial expiry of a repeated line), DumpLogEntries 12%. " +
+			"Every 100th history is staged on a large configuration (max 900..6000 bytes, line limit 3..20): 64..183 short lines are stored (old lines refreshed now and then), one ExpireLogs removes the oldest 30/50/51/60/75/90/100% of the stored lines, then fresh lines (full-length, random, exact-fit) fill the log to the byte limit and 10..40 lines beyond; once or twice, followed by 20 random operations. " +
 			"Natural-expiry scenarios (expiry 15 / 40 ms, real sleep >= 3x expiry): a filled log ending with line X, the sleep, then with no other call in between a repeat of X / an input that truncates to X / a fresh line that only fits if the expired bytes were given back / a fresh line then X, optionally followed by lines filling the log to exactly max, then a dump. " +
 			"Non-trivial = a history in which an expiry removed at least one line and a later fresh line was stored into space that only exists if the expired bytes were given back, or a later Printf needed an eviction; distinct by (configuration, history seed).",
 		Assumptions: []string{
@@ -71,6 +72,9 @@ func main() {
 			c.Require("eviction_order_checks", 200)
 			c.Require("concurrent.dumps", 100)
 			c.Require("concurrent.printfs", 1000)
+			c.Require("staged.histories", 20)
+			c.Require("expire.majority_of_large_log", 20)
+			c.Require("printf.evicts_after_majority_expiry_of_large_log", 200)
 			c.Require("natural.decided", 12)
 			c.Require("natural.repeat_of_expired_line_decided", 4)
 			c.Require("natural.fresh_into_expired_space_decided", 4)
@@ -182,6 +186,8 @@ type hist struct {
 	dead  bool
 
 	sawExpiryRemoval bool
+	sawMajority      bool // an expiry removed more than half of a log of >= 64 lines
+	staged           bool
 	nontrivial       bool
 }
 
@@ -419,6 +425,9 @@ func (h *hist) doPrintf(format string, args []interface{}, note string) {
 	if h.sawExpiryRemoval {
 		h.nontrivial = true
 	}
+	if h.sawMajority {
+		h.r.Count("printf.evicts_after_majority_expiry_of_large_log", 1)
+	}
 	if len(evicted) == 0 { // unreachable given the bound check
 		h.fail("size-bound-exceeded", "no line evicted although %d+%d > %d", sz0, need, h.c.Max)
 		return
@@ -517,6 +526,13 @@ func (h *hist) doExpire(cut time.Time, how string) {
 			removedLines++
 		} else if len(gone) > 0 {
 			h.r.Count("expire.partial", 1)
+		}
+	}
+	if len(s0) >= 64 && removedLines > len(s0)/2 {
+		h.sawMajority = true
+		h.r.Count("expire.majority_of_large_log", 1)
+		if removedLines == len(s0) {
+			h.r.Count("expire.all_of_large_log", 1)
 		}
 	}
 	if removedLines > 0 {
@@ -748,10 +764,89 @@ func (h *hist) genExpire() {
 	}
 }
 
+// Staged histories: large limits so that hundreds of short lines are stored,
+// cohorts of lines, one ExpireLogs that removes a chosen share of the stored
+// lines (more than half, exactly half, less), then fresh lines up to the
+// byte limit and beyond.
+const stagedEvery = 100
+
+var stagedCfgs = []cfg{{2000, 8}, {4000, 12}, {1500, 5}, {3000, 10}, {6000, 20}, {1000, 4}, {2016, 8}, {900, 3}}
+
+func (h *hist) genStaged() {
+	rng := h.rng
+	h.r.Count("staged.histories", 1)
+	logFresh := func(n int) {
+		if n < 1 {
+			n = 1
+		}
+		line := h.fresh(n)
+		if rng.Intn(2) == 0 {
+			h.doPrintf(line, nil, "staged")
+		} else {
+			h.doPrintf("%s", []interface{}{line}, "staged")
+		}
+	}
+	for round, rounds := 0, 1+rng.Intn(2); round < rounds && !h.dead; round++ {
+		// cohorts: short lines until at least `target` lines are stored
+		target := 64 + rng.Intn(120)
+		for i := 0; i < 400 && len(h.s) < target && !h.dead; i++ {
+			if rng.Intn(12) == 0 && len(h.s) > 0 {
+				ks := orderByLast(h.s) // refresh an old line: it moves to the young end
+				h.doPrintf(ks[rng.Intn(len(ks))], nil, "staged-refresh")
+				continue
+			}
+			logFresh(2 + rng.Intn(h.c.Limit))
+			if size(h.s)+2*h.c.Limit > h.c.Max { // full before the target: go on with what is stored
+				break
+			}
+		}
+		if h.dead || len(h.s) == 0 {
+			return
+		}
+		// one expiry that removes the share f of the stored lines (oldest first)
+		ks := orderByLast(h.s)
+		f := []float64{0.51, 0.6, 0.75, 0.9, 1.0, 1.0, 0.5, 0.3}[rng.Intn(8)]
+		k := int(f*float64(len(ks)) + 0.999)
+		if k > len(ks) {
+			k = len(ks)
+		}
+		if k < 1 {
+			k = 1
+		}
+		h.doExpire(last(h.s[ks[k-1]]).Add(time.Nanosecond), fmt.Sprintf("staged: oldest %d of %d lines", k, len(ks)))
+		if h.dead {
+			return
+		}
+		if rng.Intn(3) == 0 {
+			h.doDump()
+		}
+		// refill to the byte limit and beyond
+		over := 10 + rng.Intn(30)
+		for i := 0; i < 700 && over > 0 && !h.dead; i++ {
+			room := h.c.Max - size(h.s)
+			switch {
+			case room >= 2 && room/2 <= h.c.Limit && room%2 == 0 && rng.Intn(2) == 0:
+				logFresh(room / 2) // exact fit
+			case rng.Intn(3) == 0:
+				logFresh(1 + rng.Intn(h.c.Limit))
+			default:
+				logFresh(h.c.Limit)
+			}
+			if room < 2*h.c.Limit {
+				over--
+			}
+		}
+	}
+}
+
 func runHistory(b run.Batch, r *ev.Result, idx int) {
 	seed := b.Seed*1000003 + int64(idx)
 	rng := rand.New(rand.NewSource(seed))
 	h := &hist{r: r, b: b, rng: rng, c: pickCfg(rng, idx), seed: seed, s: state{}}
+	if idx%stagedEvery == 7 {
+		h.staged = true
+		h.c = stagedCfgs[rng.Intn(len(stagedCfgs))]
+	}
 	n := 60
 	switch x := rng.Intn(100); {
 	case x == 0:
@@ -768,6 +863,10 @@ func runHistory(b run.Batch, r *ev.Result, idx int) {
 			h.fail("phantom-line", "a new logger dumps %d lines", len(s))
 		}
 		return
+	}
+	if h.staged {
+		h.genStaged()
+		n = 20
 	}
 	for i := 0; i < n && !h.dead; i++ {
 		switch x := rng.Intn(100); {
